@@ -4,7 +4,7 @@ use adlt_verif_seam::std;
 // [ ] sort by time is only per lifecycle. could interleave lifecycles from different ecus as well (eg bugs-41250)
 
 use adlt::{
-    dlt::{DltChar4, DltMessageIndexType, DLT_MAX_STORAGE_MSG_SIZE},
+    dlt::{DltChar4, DltMessageIndexType, DLT_MSG_PARSER_LOW_MARK},
     lifecycle::LifecycleId,
     plugins::{
         factory::get_plugin,
@@ -2223,7 +2223,7 @@ fn create_parser_thread(
                                 let buf_reader = LowMarkBufReader::new(
                                     fi,
                                     BUFREADER_CAPACITY,
-                                    DLT_MAX_STORAGE_MSG_SIZE,
+                                    DLT_MSG_PARSER_LOW_MARK,
                                 );
                                 get_dlt_message_iterator(
                                     file_ext,
